@@ -8,21 +8,29 @@ From MQ Require Import Model.Codec Proofs.BytesP Proofs.DecP.
 From Coq Require Import ZArith Lia.
 
 Section Preserved.
-  Variable R : pkt -> pkt -> Prop.
+  (* R relates the reader state before and after; Rp is the part of it
+     that concerns the packet. *)
+  Variable R : dstate -> dstate -> Prop.
+  Variable Rp : pkt -> pkt -> Prop.
   Variable okref : fref -> bool.      (* fields a DGet / map entry may write *)
   Variable okdata : bool.             (* Undefined.data may be written       *)
-  Hypothesis R_refl : forall p, R p p.
+  Hypothesis R_refl : forall s, R s s.
   Hypothesis R_trans : forall a b c, R a b -> R b c -> R a c.
-  Hypothesis R_setf : forall r v p, okref r = true -> R p (setf r v p).
-  Hypothesis R_data : forall v p, okdata = true -> R p (setf (M F_data) v p).
-  Hypothesis R_subid : forall o p, R p (set_subid p o).
-  Hypothesis R_subids : forall l p, R p (set_subids p l).
-  Hypothesis R_uprops : forall l p, R p (set_uprops p l).
-  Hypothesis R_wuprops : forall l p, R p (set_wuprops p l).
-  Hypothesis R_filters : forall l p, R p (set_filters p l).
-  Hypothesis R_ufilters : forall l p, R p (set_ufilters p l).
-  Hypothesis R_rcodes : forall l p, R p (set_rcodes p l).
-  Hypothesis R_will_init : forall p, R p (will_init p).
+  (* a buffer.get: packet and data untouched, an error is never cleared *)
+  Hypothesis R_get : forall s s', dp s' = dp s -> ddata s' = ddata s ->
+                                  (derr s <> None -> derr s' <> None) -> R s s'.
+  Hypothesis R_pkt : forall s p', Rp (dp s) p' -> R s (with_pkt p' s).
+  Hypothesis R_err : forall s e, R s (with_err e s).
+  Hypothesis R_setf : forall r v p, okref r = true -> Rp p (setf r v p).
+  Hypothesis R_data : forall v p, okdata = true -> Rp p (setf (M F_data) v p).
+  Hypothesis R_subid : forall o p, Rp p (set_subid p o).
+  Hypothesis R_subids : forall l p, Rp p (set_subids p l).
+  Hypothesis R_uprops : forall l p, Rp p (set_uprops p l).
+  Hypothesis R_wuprops : forall l p, Rp p (set_wuprops p l).
+  Hypothesis R_filters : forall l p, Rp p (set_filters p l).
+  Hypothesis R_ufilters : forall l p, Rp p (set_ufilters p l).
+  Hypothesis R_rcodes : forall l p, Rp p (set_rcodes p l).
+  Hypothesis R_will_init : forall p, Rp p (will_init p).
 
   Fixpoint no_write1 (d : dec) {struct d} : bool :=
     let nw_list := fix nw_list (ds : list dec) : bool :=
@@ -38,39 +46,37 @@ Section Preserved.
   Fixpoint no_write (ds : list dec) : bool :=
     match ds with [] => true | d :: ds' => no_write1 d && no_write ds' end.
 
-  Definition same (s s' : dstate) : Prop := R (dp s) (dp s').
-
   Definition keeps (s : dstate) (r : res) : Prop :=
-    match r with Run s' => same s s' | _ => True end.
+    match r with Run s' => R s s' | _ => True end.
 
-  Lemma keeps_trans s s1 r : same s s1 -> keeps s1 r -> keeps s r.
-  Proof. destruct r; cbn; auto. unfold same. intros A B. eapply R_trans; eassumption. Qed.
+  Lemma keeps_trans s s1 r : R s s1 -> keeps s1 r -> keeps s r.
+  Proof. destruct r; cbn; auto. intros A B. eapply R_trans; eassumption. Qed.
 
-  Lemma same_pkt s s' : dp s' = dp s -> same s s'.
-  Proof. unfold same. intros ->. apply R_refl. Qed.
-
-  Lemma same_step s s' p' : same s s' -> R (dp s') p' -> same s (with_pkt p' s').
-  Proof. unfold same. cbn. intros A B. eapply R_trans; eassumption. Qed.
+  Lemma step_pkt s s' p' : R s s' -> Rp (dp s') p' -> R s (with_pkt p' s').
+  Proof. intros A B. eapply R_trans; [exact A|apply R_pkt; exact B]. Qed.
 
   Lemma get_val_keeps w old s :
     match get_val w old s with
-    | GOk _ s' | GNo s' => dp s' = dp s
+    | GOk _ s' | GNo s' => R s s'
     | GPanic => True
     end.
   Proof.
     pose proof (get_val_spec w old s) as G.
-    destruct (get_val w old s); try exact I; destruct G as [[Gp _ _ _] _]; exact Gp.
+    destruct (get_val w old s); try exact I.
+    - destruct G as [[Gp Gd _ _] [He _]]. apply R_get; auto; congruence.
+    - destruct G as [[Gp Gd _ _] [He _]]. apply R_get; auto.
   Qed.
 
   Lemma get_up_keeps s :
     match get_with dec_userprop width_userprop s with
-    | GOk _ s' | GNo s' => dp s' = dp s
+    | GOk _ s' | GNo s' => R s s'
     | GPanic => True
     end.
   Proof.
     pose proof (get_up_spec s) as G.
-    destruct (get_with dec_userprop width_userprop s); try exact I;
-      destruct G as [[Gp _ _ _] _]; exact Gp.
+    destruct (get_with dec_userprop width_userprop s); try exact I.
+    - destruct G as [[Gp Gd _ _] [He _]]. apply R_get; auto; congruence.
+    - destruct G as [[Gp Gd _ _] [He _]]. apply R_get; auto.
   Qed.
 
   Lemma get_keeps r w s : okref r = true -> keeps s (get r w s).
@@ -78,8 +84,7 @@ Section Preserved.
     intros H. unfold get. destruct (getf_opt r (dp s)) as [old|]; [|exact I].
     pose proof (get_val_keeps w old s) as K.
     destruct (get_val w old s) as [v s'|s'|]; cbn; auto.
-    - unfold same. cbn. rewrite K. apply R_setf. exact H.
-    - apply same_pkt. exact K.
+    apply step_pkt; [exact K|]. apply R_setf. exact H.
   Qed.
 
   Lemma lookup_nw m id r t :
@@ -99,10 +104,9 @@ Section Preserved.
     cbn [getany_loop].
     destruct (N.of_nat (dpos s) <? endp); [|cbn; apply R_refl].
     pose proof (get_val_keeps U8 (VN id) s) as K1.
-    destruct (get_val U8 (VN id) s) as [v s1|s1|]; [|apply same_pkt; exact K1|exact I].
-    assert (S1 : same s s1) by (apply same_pkt; exact K1).
-    assert (K : forall s2 id', same s1 s2 -> keeps s (getany_loop fuel m will sm endp id' s2)).
-    { intros s2 id' S2. apply (keeps_trans s s2); [unfold same in *; eapply R_trans; eassumption|].
+    destruct (get_val U8 (VN id) s) as [v s1|s1|]; [|exact K1|exact I].
+    assert (K : forall s2 id', R s1 s2 -> keeps s (getany_loop fuel m will sm endp id' s2)).
+    { intros s2 id' S2. apply (keeps_trans s s2); [eapply R_trans; eassumption|].
       apply IH. exact Hm. }
     set (idv := valN v).
     destruct (match sm with
@@ -115,24 +119,23 @@ Section Preserved.
       destruct (get r t s1) as [s2| |]; [|exact I|exact I]. apply K. exact P.
     - destruct (match sm with SubOpt => idv =? SubscriptionID | _ => false end).
       + set (s1' := with_pkt (set_subid (dp s1) (Some 0)) s1).
-        assert (S1' : same s1 s1') by (unfold same; cbn; apply R_subid).
+        assert (S1' : R s1 s1') by (apply R_pkt; apply R_subid).
         pose proof (get_val_keeps Vb (VN 0) s1') as K2.
         destruct (get_val Vb (VN 0) s1') as [v2 s2|s2|]; [| |exact I]; apply K.
-        * apply same_step; [unfold same in *; rewrite K2; exact S1'|apply R_subid].
-        * unfold same in *. rewrite K2. exact S1'.
+        * apply step_pkt; [eapply R_trans; eassumption|apply R_subid].
+        * eapply R_trans; eassumption.
       + destruct (idv =? UserProperty).
         * pose proof (get_up_keeps s1) as K2.
           destruct (get_with dec_userprop width_userprop s1) as [kv s2|s2|]; [| |exact I];
             unfold add_uprop; destruct will; try destruct (hasWill (dp s2)); try exact I;
-            apply K; (apply same_step; [apply same_pkt; exact K2|]);
+            apply K; (apply step_pkt; [exact K2|]);
             first [apply R_wuprops | apply R_uprops].
         * destruct (idv =? SubscriptionID).
           -- pose proof (get_val_keeps Vb (VN 0) s1) as K2.
              destruct (get_val Vb (VN 0) s1) as [v2 s2|s2|]; [| |exact I];
                destruct sm; apply K;
-               first [apply same_pkt; exact K2
-                     |apply same_step; [apply same_pkt; exact K2|apply R_subids]].
-          -- apply K. apply same_pkt. reflexivity.
+               first [exact K2 | apply step_pkt; [exact K2|apply R_subids]].
+          -- apply K. apply R_err.
   Qed.
 
   Lemma getany_keeps m will sm s :
@@ -141,7 +144,7 @@ Section Preserved.
     intros Hm. unfold getany. destruct (at_end s); [cbn; apply R_refl|].
     pose proof (get_val_keeps Vb (VN 0) s) as K1.
     destruct (get_val Vb (VN 0) s) as [v s1|s1|]; [| |exact I];
-      (apply (keeps_trans s s1); [apply same_pkt; exact K1|]); apply getany_loop_keeps; exact Hm.
+      (apply (keeps_trans s s1); [exact K1|]); apply getany_loop_keeps; exact Hm.
   Qed.
 
   Lemma filter_loop_keeps : forall fuel s, keeps s (filter_loop fuel s).
@@ -149,19 +152,19 @@ Section Preserved.
     induction fuel as [|fuel IH]; intros s; [exact I|]. cbn [filter_loop].
     destruct (at_end s); [cbn; apply R_refl|].
     pose proof (get_val_keeps Bin (VS []) s) as K1.
-    assert (Z : forall s2 (l : list (list byte * N)), dp s2 = dp s ->
+    assert (Z : forall s2 (l : list (list byte * N)), R s s2 ->
       let s3 := with_pkt (set_filters (dp s2) l) s2 in
       keeps s (match derr s3 with
                | Some _ => Run s3
                | None => if at_end s3 then Run s3 else filter_loop fuel s3 end)).
     { intros s2 l E s3.
-      assert (S3 : same s s3) by (unfold same, s3; cbn; rewrite E; apply R_filters).
+      assert (S3 : R s s3) by (apply step_pkt; [exact E|apply R_filters]).
       destruct (derr s3); [exact S3|]. destruct (at_end s3); [exact S3|].
       apply (keeps_trans s s3 _ S3). apply IH. }
     destruct (get_val Bin (VS []) s) as [v s1|s1|]; [| |exact I];
       pose proof (get_val_keeps U8 (VN 0) s1) as K2;
       (destruct (get_val U8 (VN 0) s1) as [v2 s2|s2|]; [| |exact I]);
-      apply Z; congruence.
+      apply Z; eapply R_trans; eassumption.
   Qed.
 
   Lemma ufilter_loop_keeps : forall fuel s, keeps s (ufilter_loop fuel s).
@@ -169,13 +172,13 @@ Section Preserved.
     induction fuel as [|fuel IH]; intros s; [exact I|]. cbn [ufilter_loop].
     destruct (at_end s); [cbn; apply R_refl|].
     pose proof (get_val_keeps Bin (VS []) s) as K1.
-    assert (Z : forall s2 (l : list (list byte)), dp s2 = dp s ->
+    assert (Z : forall s2 (l : list (list byte)), R s s2 ->
       let s3 := with_pkt (set_ufilters (dp s2) l) s2 in
       keeps s (match derr s3 with
                | Some _ => Run s3
                | None => if at_end s3 then Run s3 else ufilter_loop fuel s3 end)).
     { intros s2 l E s3.
-      assert (S3 : same s s3) by (unfold same, s3; cbn; rewrite E; apply R_ufilters).
+      assert (S3 : R s s3) by (apply step_pkt; [exact E|apply R_ufilters]).
       destruct (derr s3); [exact S3|]. destruct (at_end s3); [exact S3|].
       apply (keeps_trans s s3 _ S3). apply IH. }
     destruct (get_val Bin (VS []) s) as [v s1|s1|]; [| |exact I]; apply Z; exact K1.
@@ -183,10 +186,10 @@ Section Preserved.
 
   Lemma rcodes_loop_keeps : forall n acc s, keeps s (rcodes_loop n acc s).
   Proof.
-    induction n as [|n IH]; intros acc s; [cbn; apply R_rcodes|]. cbn [rcodes_loop].
+    induction n as [|n IH]; intros acc s; [cbn; apply R_pkt; apply R_rcodes|]. cbn [rcodes_loop].
     pose proof (get_val_keeps U8 (VN 0) s) as K1.
     destruct (get_val U8 (VN 0) s) as [v s1|s1|]; [| |exact I];
-      (apply (keeps_trans s s1 _); [apply same_pkt; exact K1|]); apply IH.
+      (apply (keeps_trans s s1 _); [exact K1|]); apply IH.
   Qed.
 
   Lemma run_dec1_keeps : forall d s, no_write1 d = true -> keeps s (run_dec1 d s).
@@ -201,12 +204,12 @@ Section Preserved.
       pose proof (IH d s H1) as K1.
       destruct (run_dec1 d s) as [s1| |]; [|exact I|exact I].
       apply (keeps_trans s s1 _ K1). apply IHds. exact H2.
-    - cbn. unfold same. cbn. apply R_will_init.
-    - destruct (hasWill (dp s)); [|exact I]. unfold keeps, same. cbn [dp with_pkt]. apply R_setf. exact H.
+    - unfold keeps. apply R_pkt. apply R_will_init.
+    - destruct (hasWill (dp s)); [|exact I]. unfold keeps. apply R_pkt. apply R_setf. exact H.
     - apply filter_loop_keeps.
     - apply ufilter_loop_keeps.
     - destruct (dpos s <=? length (ddata s))%nat; [|exact I]. apply rcodes_loop_keeps.
-    - unfold keeps, same. cbn [dp with_pkt]. apply R_data. exact H.
+    - unfold keeps. apply R_pkt. apply R_data. exact H.
   Qed.
 
   Lemma run_dec_keeps : forall ds s, no_write ds = true -> keeps s (run_dec ds s).
@@ -219,12 +222,21 @@ Section Preserved.
   Qed.
 End Preserved.
 
+Lemma no_write_all okdata ds : no_write (fun _ => true) okdata ds = true \/ okdata = false.
+Proof. destruct okdata; [left|right; reflexivity].
+  induction ds as [|d ds IH]; [reflexivity|]. cbn [no_write]. rewrite IH, andb_true_r.
+  clear IH. revert d. fix IHd 1. intros d. destruct d; cbn [no_write1]; try reflexivity.
+  - induction m as [|e m IHm]; [reflexivity|]. cbn. exact IHm.
+  - induction ds0 as [|d' ds' IH']; [reflexivity|]. rewrite IHd. exact IH'.
+Qed.
+
 (* ---------------- instance: a field keeps its value ---------------- *)
 
 Definition ref_is (f0 : fld) (r : fref) : bool :=
   match r with M f => fld_eqb f f0 | W _ => false end.
 
 Definition Rfield (f0 : fld) (p p' : pkt) : Prop := vals p' f0 = vals p f0.
+Definition Rfield_s (f0 : fld) (s s' : dstate) : Prop := Rfield f0 (dp s) (dp s').
 
 Lemma setf_other f0 r v p : ref_is f0 r = false -> vals (setf r v p) f0 = vals p f0.
 Proof.
@@ -235,10 +247,10 @@ Qed.
 Definition nw_field (f0 : fld) := no_write (fun r => negb (ref_is f0 r)) (negb (fld_eqb F_data f0)).
 
 Lemma field_kept f0 ds s : nw_field f0 ds = true ->
-  keeps (Rfield f0) s (run_dec ds s).
+  keeps (Rfield_s f0) s (run_dec ds s).
 Proof.
-  apply (run_dec_keeps (Rfield f0) (fun r => negb (ref_is f0 r)) (negb (fld_eqb F_data f0)));
-    unfold Rfield; intros; try reflexivity; try congruence.
+  apply (run_dec_keeps (Rfield_s f0) (Rfield f0) (fun r => negb (ref_is f0 r)) (negb (fld_eqb F_data f0)));
+    unfold Rfield_s, Rfield; intros; try reflexivity; try congruence; try assumption.
   - apply setf_other. apply negb_true_iff. assumption.
   - apply setf_other. cbn. apply negb_true_iff. assumption.
 Qed.
@@ -260,14 +272,22 @@ Qed.
 (* ---------------- instance: an allocated will stays allocated ------- *)
 
 Definition Rwill (p p' : pkt) : Prop := hasWill p = true -> hasWill p' = true.
+Definition Rwill_s (s s' : dstate) : Prop := Rwill (dp s) (dp s').
 
-Lemma will_kept ds s : keeps Rwill s (run_dec ds s).
+Lemma will_kept ds s : keeps Rwill_s s (run_dec ds s).
 Proof.
-  assert (H : no_write (fun _ => true) true ds = true).
-  { induction ds as [|d ds IH]; [reflexivity|]. cbn [no_write]. rewrite IH, andb_true_r.
-    clear IH. revert d. fix IHd 1. intros d. destruct d; cbn [no_write1]; try reflexivity.
-    - induction m as [|e m IHm]; [reflexivity|]. cbn. exact IHm.
-    - induction ds0 as [|d' ds' IH']; [reflexivity|]. rewrite IHd. exact IH'. }
-  apply (run_dec_keeps Rwill (fun _ => true) true); unfold Rwill; intros; auto;
+  destruct (no_write_all true ds) as [H|H]; [|discriminate].
+  apply (run_dec_keeps Rwill_s Rwill (fun _ => true) true); unfold Rwill_s, Rwill; intros; auto;
     try (rewrite hasWill_setf; assumption).
+  rewrite H0. assumption.
+Qed.
+
+(* ---------------- instance: an error is never cleared ---------------- *)
+Definition Rerr (s s' : dstate) : Prop := derr s <> None -> derr s' <> None.
+
+Lemma err_sticky ds s : keeps Rerr s (run_dec ds s).
+Proof.
+  destruct (no_write_all true ds) as [H|H]; [|discriminate].
+  apply (run_dec_keeps Rerr (fun _ _ => True) (fun _ => true) true); unfold Rerr; intros; auto.
+  cbn. discriminate.
 Qed.
